@@ -18,6 +18,7 @@ pub fn scenario(tier: &str) -> (Life, Bounds) {
         money_devs: false,
         precommits: th,
         horizon: None,
+        big: false,
     };
     let b = if th {
         Bounds { max_depth: 400, wall_cap_s: 1500.0, ..Default::default() }
